@@ -173,6 +173,17 @@ impl Ctx {
             }
             last.insert(tid.clone(), *expiry);
         }
+        // a tower the user has abandoned (and not registered again) is gone, with everything that was kept for it
+        if quiescent {
+            for t in self.abandoned.clone() {
+                let id = self.tower_hex(t);
+                let left: usize = store.receipts.iter().chain(store.pending.iter()).chain(store.invalid.iter()).filter(|(tw, _)| *tw == id).count();
+                if store.towers.contains(&id) || left > 0 || proofs.contains(&id) {
+                    self.v("C14", format!("abandoned-tower-on-record:after-{after}"), format!("tower {t} was abandoned, yet the store has {} tower record, {left} appointment records and {} proof for it", store.towers.contains(&id) as u8, proofs.contains(&id) as u8));
+                    self.v("C05", format!("abandoned-tower-on-record:after-{after}"), format!("tower {t} was abandoned, yet the store has {} tower record, {left} appointment records and {} proof for it", store.towers.contains(&id) as u8, proofs.contains(&id) as u8));
+                }
+            }
+        }
         for (loc, towers) in self.notified.clone() {
             for t in towers {
                 if self.abandoned.contains(&t) {
@@ -789,6 +800,30 @@ fn c14_scenarios(tier: Tier) -> Vec<Scenario> {
             ],
         });
     }
+    // the user abandons a tower while the retrier is renewing the subscription with it (the tower holds the registration
+    // request): the registration that then arrives must not bring the tower back
+    v.push(Scenario {
+        name: "abandoned-while-the-retrier-renews-the-subscription".into(),
+        towers: 2,
+        opts: RetryOpts::default(),
+        steps: vec![
+            Step::Register(0),
+            Step::Register(1),
+            Step::LoseSubscription(0),
+            Step::Script(0, "/register".into(), vec![Reply::Hold]),
+            Step::Revoke(1),
+            Step::WaitInFlight(0),
+            Step::Abandon(0),
+            Step::Release(0),
+            Step::Settle,
+            Step::Sleep(1500),
+            Step::Settle,
+            Step::Revoke(2),
+            Step::Settle,
+            Step::Restart,
+            Step::Settle,
+        ],
+    });
     // a tower proven misbehaving stays so, also across a (valid) renewal of the subscription
     v.push(Scenario {
         name: "misbehaving-then-renewal".into(),
